@@ -2,16 +2,22 @@ import BarterModel.Driver.Common
 import BarterModel.Model.ExecManager
 /-!
 Line-protocol driver for C07. Ops:
-  `init T n [m]`                  manager for exchange 0 with `n` instruments, request timeout `T` and `m`
-                                  configured assets (default 0: no asset name is known)
+  `init T n [m [x]]`              manager for exchange `x` (default 0 = the first exchange of the system; at
+                                  most 3: exchange index and exchange id are the same number) with `n`
+                                  instruments, request timeout `T` and `m` configured assets (default 0: no
+                                  asset name is known)
   `open|cancel ex ins strat cid body delay reply fills eex eins estrat ecid ebody [oid tex]`
                                   request (key, body) + the scripted client's behaviour:
                                   `body`  = code of the request's state. Opens: the static fields
                                             `base = body % 6` → side (even Buy / odd Sell), price `base`,
                                             quantity `base + 1`; `(body / 6) % 2` → Limit / Market;
                                             `(body / 12) % 5` → GTC / GTC post-only / GoodUntilEndOfDay /
-                                            FillOrKill / ImmediateOrCancel (`body < 60`; codes 0..5 are the
-                                            Limit / GTC orders of the first corpus). Cancels: the
+                                            FillOrKill / ImmediateOrCancel (codes 0..5 are the Limit / GTC
+                                            orders of the first corpus); codes 60..219: price / quantity
+                                            `exotic ((body - 60) % 8)` (the smallest unit, 1e12, a negative
+                                            price, quantity zero, many digits, huge x tiny, 1e15, a negative
+                                            quantity), side / kind / time in force from `(body - 60) / 8`,
+                                            `/ 16`, `/ 32`. Cancels: the
                                             `RequestCancel { id }`: 0 = `None`, k+1 = `Some("o<k>")`.
                                   `delay` = `never` | ticks, `reply` = `ok` | `rej` | `inv<i>` |
                                   `conn_timeout` | `conn_offline` | `conn_socket` (Connectivity error as the
@@ -20,7 +26,8 @@ Line-protocol driver for C07. Ops:
                                   OrderAlreadyFullyFilled),
                                   `fills` = filled quantity of an accepted open, as a code relative to the
                                   quantity of the ECHOED order: 0 nothing, 1 all of it, 2 half of it (a partial
-                                  fill), 3 quantity + 1 (over-fill); 0 for cancels,
+                                  fill), 3 quantity + 1 (over-fill), 4 quantity - 1e-8 (all but the smallest
+                                  unit), 5 quantity + 1e-8; 0 for cancels,
                                   echoed key / echoed body (static fields the client puts into its answer),
                                   `oid tex` (optional, default `0 0`: the first corpus) = payload of the answer:
                                   order id `o<oid>`, exchange time `tex` ms; the text inside an error is
@@ -80,16 +87,42 @@ def statusStr : Status → String
 /-! ### the `body` code (shared with `harness/src/bin/c07.rs` `body_fields`) -/
 
 def bodyBase (b : Nat) : Nat := b % 6
+
+/-- number of `body` codes of an open (`BODY_CODES` of the harness) -/
+def bodyCodes : Nat := 60 + 160
+
+/-- 1e-8 -/
+def smallestUnit : Rat := (1 : Rat) / 100000000
+
+/-- (price, quantity) of the body codes ≥ 60 (`EXOTIC` of the harness) -/
+def exotic (k : Nat) : Rat × Rat :=
+  match k % 8 with
+  | 0 => (smallestUnit, smallestUnit)
+  | 1 => (1000000000000, 1000000000000)
+  | 2 => (-(7 : Rat) / 2, (9 : Rat) / 4)
+  | 3 => ((1 : Rat) / 2, 0)
+  | 4 => ((123456789 : Rat) / 1000, (1 : Rat) / 1000)
+  | 5 => (1000000000000, smallestUnit)
+  | 6 => (1, 1000000000000000)
+  | _ => (0, -1)
+
+/-- price of the order with static-field code `b` -/
+def bodyPrice (b : Nat) : Rat :=
+  if b ≥ 60 then (exotic (b - 60)).1 else ((bodyBase b : Nat) : Rat)
+
 /-- quantity of the order with static-field code `b` -/
-def bodyQty (b : Nat) : Rat := ((bodyBase b + 1 : Nat) : Rat)
+def bodyQty (b : Nat) : Rat :=
+  if b ≥ 60 then (exotic (b - 60)).2 else ((bodyBase b + 1 : Nat) : Rat)
 
 def openFields (b : Nat) : String :=
-  let base := bodyBase b
-  let side := if base % 2 == 0 then "B" else "S"
-  let kind := if (b / 6) % 2 == 0 then "L" else "M"
-  let tif := match (b / 12) % 5 with
+  let sideOf (k : Nat) := if k % 2 == 0 then "B" else "S"
+  let kindOf (k : Nat) := if k % 2 == 0 then "L" else "M"
+  let tifOf (k : Nat) := match k % 5 with
     | 0 => "G0" | 1 => "G1" | 2 => "D" | 3 => "F" | _ => "I"
-  s!"{side}:{base}:{base + 1}:{kind}:{tif}"
+  let (side, kind, tif) :=
+    if b ≥ 60 then (sideOf ((b - 60) / 8), kindOf ((b - 60) / 16), tifOf ((b - 60) / 32))
+    else (sideOf (bodyBase b), kindOf (b / 6), tifOf (b / 12))
+  s!"{side}:{fmtRat (bodyPrice b)}:{fmtRat (bodyQty b)}:{kind}:{tif}"
 
 def cancelId (b : Nat) : String := if b == 0 then "id:-" else s!"id:o{b - 1}"
 
@@ -151,7 +184,8 @@ def parseDelay (s : String) : Option (Option Nat) :=
 /-- `fills` code → filled quantity, given the quantity of the echoed order -/
 def parseFills (s : String) (q : Rat) : Option Rat :=
   if s == "0" then some 0 else if s == "1" then some q else if s == "2" then some (q / 2)
-  else if s == "3" then some (q + 1) else none
+  else if s == "3" then some (q + 1) else if s == "4" then some (q - smallestUnit)
+  else if s == "5" then some (q + smallestUnit) else none
 
 /-- a request and the payload of the scripted client's answer to it -/
 structure PReq where
@@ -171,7 +205,7 @@ def parseReq (kind : Kind) (toks : List String) : Option PReq :=
           | some filled =>
             -- cancels carry no static order fields and report no fill
             if kind == .cancel && (ebody != 0 || fills != "0") then none
-            else if kind == .open && (body ≥ 60 || ebody ≥ 60) then none
+            else if kind == .open && (body ≥ bodyCodes || ebody ≥ bodyCodes) then none
             else
               -- `fills` of the model: nothing is left to fill of the ECHOED order (manager.rs:381)
               let nothing := kind == .open && nothingLeft (bodyQty ebody) filled
@@ -188,7 +222,7 @@ def parseReq (kind : Kind) (toks : List String) : Option PReq :=
   | _ => none
 
 inductive Op
-  | init (t n m : Nat)
+  | init (t n m x : Nat)
   | req (q : PReq)
   /-- the request is put on the manager's request channel and the sender does NOT yield: the manager
   sees it only together with whatever the following ops send (a burst within one wake-up) -/
@@ -200,12 +234,16 @@ inductive Op
 def parseOp : List String → Option Op
   | ["init", t, n] =>
     match t.toNat?, n.toNat? with
-    | some t, some n => some (.init t n 0)
+    | some t, some n => some (.init t n 0 0)
     | _, _ => none
   | ["init", t, n, m] =>
     match t.toNat?, n.toNat?, m.toNat? with
-    | some t, some n, some m => some (.init t n m)
+    | some t, some n, some m => some (.init t n m 0)
     | _, _, _ => none
+  | ["init", t, n, m, x] =>
+    match t.toNat?, n.toNat?, m.toNat?, x.toNat? with
+    | some t, some n, some m, some x => if x < 4 then some (.init t n m x) else none
+    | _, _, _, _ => none
   | "open" :: rest => (parseReq .open rest).map .req
   | "cancel" :: rest => (parseReq .cancel rest).map .req
   | "open+" :: rest => (parseReq .open rest).map .reqBurst
@@ -248,8 +286,8 @@ def model : Drv MSt where
   step m toks :=
     match parseOp toks with
     | none => (m, ["bad-op"])
-    | some (.init t n na) =>
-      let m' : MSt := ⟨⟨0, n, t, na⟩, init, [], []⟩
+    | some (.init t n na x) =>
+      let m' : MSt := ⟨⟨x, n, t, na⟩, init, [], []⟩
       (m', mObs m' [] m'.s)
     | some (.req q) =>
       let (s1, payloads, fwd) := mIntake m q
@@ -390,7 +428,7 @@ def spec : Drv SSt where
   step s toks :=
     match parseOp toks with
     | none => (s, ["bad-op"])
-    | some (.init t n na) => (⟨⟨0, n, t, na⟩, 0, true, false, [], []⟩, ["nev 0"])
+    | some (.init t n na x) => (⟨⟨x, n, t, na⟩, 0, true, false, [], []⟩, ["nev 0"])
     | some (.req q) =>
       if !s.running || s.broken then (s, [])
       else if !s.cfg.configured q.q.key then ({ s with broken := true }, [])
